@@ -35,7 +35,13 @@ def specs_for(tier, seed):
                   endpoints={"A": {"ca": ca or {}}}, meta=dict(meta or {}, set=name, ca=ca or {}))
         if accounts:
             sp["accounts"] = accounts
-        specs.append(flowcheck.prepare(sp))
+        sp = flowcheck.prepare(sp)
+        # a conforming CA that offers the configured challenge types and leaves every authorization pending or valid: issuance must go through
+        c = ca or {}
+        solvable = (all(v == "valid" for v in (c.get("authz_status") or {}).values()) and c.get("wildcard_field", True)
+                    and ("offered" not in c or all(i["challenge"] in c["offered"] for i in ids)))
+        sp["meta"]["healthy"] = {cid: bool(solvable) for cid in sp["meta"]["flow"]}
+        specs.append(sp)
 
     for name, ids in id_sets().items():
         n = len(ids)
@@ -52,6 +58,12 @@ def specs_for(tier, seed):
             for v in (vals if tier == "thorough" else vals[:1] + vals[-1:]):
                 add(name, ids, ca={"authz_status": {v: st}}, meta={"family": "authorization offered in status", "status": st, "ident": v})
         add(name, ids, ca={"authz_status": {"*": "valid"}}, meta={"family": "all authorizations already valid"})
+        # authorization reuse: any subset already valid, in any position of the list
+        subsets = [sub for k in range(1, n) for sub in itertools.combinations(vals, k)]
+        if tier != "thorough" and len(subsets) > 4:
+            subsets = subsets[:2] + rng.sample(subsets[2:], 2)
+        for sub in subsets:
+            add(name, ids, ca={"authz_status": {v: "valid" for v in sub}}, meta={"family": "some authorizations already valid", "valid": list(sub)})
         # CAs that offer a subset of challenge types
         for offered in (["http-01"], ["dns-01"], ["tls-alpn-01"], ["http-01", "dns-01"], ["dns-01", "tls-alpn-01"], ["tls-alpn-01", "http-01"]):
             if tier == "thorough" or rng.random() < 0.5:
@@ -96,7 +108,7 @@ def run(ctx):
            "model_fidelity": {"all_labels_clean": not fb, "bad": [({k: v for k, v in results[i]["meta"].items() if k not in ("flow", "hook_types")}, l) for i, l, _ in fb[:6]]},
            "exhaustive": False,
            "rule": "identifier sets in which a name and its wildcard, several names, and IPv4/IPv6 addresses use different challenge types; every (quick: sampled) "
-                   "order of authorizations and challenges; authorizations offered in every status; CAs offering subsets of challenge types; all 7 account "
+                   "order of authorizations and challenges; authorizations offered in every status, any subset already valid (the rest must still be solved: a solvable issuance must succeed); CAs offering subsets of challenge types; all 7 account "
                    "key types. Expected proofs are computed by the CA from the registered JWK (RFC 7638 thumbprint built by the vcrypto oracle)."}
     return {"coverage": cov, "assumptions": [
         "a conforming CA marks wildcard authorizations with wildcard=true (RFC 8555 7.1.4); runs against a CA that omits the flag are recorded in model_fidelity only",
